@@ -285,6 +285,19 @@ class SpecMon(Monitor):
         lab = self.classify(m, st, cid)
         self.hist = self.hist[-60:] + ("%s:%s" % (self.q[0], lab),)
         self.step(m, st, cid, lab, self.pos(st, i), self.pos(st, i + 1))
+        if self.kind != "chunk" and self.q[0] != "ERR":
+            # C05: NUL / bare CR inside a head that is still acceptable
+            mask = st.cells[cid]
+            if mask & NUL:
+                self.flags["nul"] = True
+            if self.flags.get("prev_cr") and (mask & ~LF & FULL):
+                self.flags["bare_cr"] = True
+            if mask & CR:
+                if mask & ~CR & FULL:
+                    raise Unanalysable("reference grammar: CR not separated from other bytes in state %s" % (self.q,))
+                self.flags["prev_cr"] = True
+            else:
+                self.flags.pop("prev_cr", None)
 
     # the transition function ----------------------------------------------------------------------
     def step(self, m, st, cid, lab, here, after):
@@ -748,11 +761,49 @@ class SpecMon(Monitor):
             self.bad(m, st, "field", "field %s stored before the reference has delimited it (state %s)" % (f, self.q[0]))
         if f in self.got:
             self.bad(m, st, "field", "field %s stored twice" % f)
+        self.check_hygiene(m, st, f, inner)
         self.check_value(m, st, f, e, inner)
         self.got[f] = True
         self.exp[f] = ("done",)
         if e[0] == "val":
             self.vals.pop(e[1], None)
+
+    def check_hygiene(self, m, st, f, v, fold=False):
+        """C05 on the value the implementation hands out (its own region summary), not on the
+        reference's idea of the field."""
+        cls = {"method": TCHAR, "path": URI, "reason": REASON_OK, "header name": TCHAR, "header value": VAL}.get(f)
+        if cls is None or v[0] != "fat":
+            return
+        if f == "header value" and fold:
+            cls = cls | CR | LF
+        summ = v[3]
+        empty_ok = f in ("reason", "header value")
+        if v[2][0] == "int" and v[2][1] == 0:
+            if not empty_ok:
+                m.violate(st, "hygiene:%s" % f.replace(" ", "-"), "%s may be empty" % f)
+            return
+        inner = summ[2] if summ is not None and summ[0] == "trim" else summ
+        if inner is None or inner[0] not in ("reg", "const", "empty"):
+            m.violate(st, "hygiene:%s" % f.replace(" ", "-"), "%s: content of the region is not known to the analysis" % f)
+        if inner[0] == "empty":
+            if not empty_ok:
+                m.violate(st, "hygiene:%s" % f.replace(" ", "-"), "%s may be empty" % f)
+            return
+        content = inner[1]
+        if content & ~cls & FULL:
+            m.violate(st, "hygiene:%s" % f.replace(" ", "-"), "%s may contain %s" % (f, mask_str(content & ~cls & FULL)))
+        if not empty_ok and inner[0] == "reg" and inner[3] is not True:
+            m.violate(st, "hygiene:%s" % f.replace(" ", "-"), "%s may be empty" % f)
+        if f == "header value":
+            first = inner[2] if inner[0] == "reg" else FULL
+            if first & WS:
+                m.violate(st, "hygiene:header-value", "header value may start with SP/HTAB")
+            if summ[0] != "trim":
+                m.violate(st, "hygiene:header-value", "header value is not trimmed at its end")
+            else:
+                r = st.rsyms.get(summ[1])
+                if r is None or (r[1] & WS):
+                    m.violate(st, "hygiene:header-value", "header value may end with SP/HTAB")
 
     def check_value(self, m, st, f, e, v):
         if e[0] == "val":
@@ -858,6 +909,8 @@ class SpecMon(Monitor):
         if h[0] != "agg" or len(h[1]) != 2:
             self.bad(m, st, "slot", "header slot receives something that is not a Header")
         name, value = h[1]
+        self.check_hygiene(m, st, "header name", name)
+        self.check_hygiene(m, st, "header value", value, fold=self.opt(m, st, "fold"))
         ns, ne, vs, ve, started = self.pend
         self.check_slice(m, st, "header name", ns, ne, name)
         if not started:
@@ -928,6 +981,9 @@ class SpecMon(Monitor):
             want = "partial"
         else:
             want = sv[0]
+        if kind == "partial" and not (st.eof and not st.tape):
+            m.violate(st, "partial-with-unread-input", "Partial returned while %s" % ("%d byte(s) already seen are unread" % len(st.tape) if st.tape else "the end of the buffer has not been observed"))
+        self.check_headers_field(m, st, kind, payload)
         if kind == "partial":
             if want == "err":
                 # deferred checks allowed by C11: UTF-8 validity of the target, header capacity
@@ -943,6 +999,15 @@ class SpecMon(Monitor):
                 self.bad(m, st, "errkind", "implementation returned Err(%s), reference classifies the first offending byte as %s" % (payload, sv[1]))
             return
         # complete
+        if self.flags.get("nul"):
+            m.violate(st, "hygiene:nul", "Complete although a NUL byte may have been consumed")
+        if self.flags.get("bare_cr"):
+            m.violate(st, "hygiene:bare-cr", "Complete although a CR not followed by LF may have been consumed")
+        if "SELF" in st.heap and st.heap["SELF"][0] == "agg":
+            names = st.flags.get("self_fields", ())
+            for i, v in enumerate(st.heap["SELF"][1]):
+                if v[0] == "hist":
+                    m.violate(st, "history:field-not-assigned", "Complete but field %s still holds the value of an earlier call" % (names[i] if i < len(names) else i))
         if want != "complete":
             self.bad(m, st, "verdict", "implementation returned Complete, reference says %s" % (("Err(%s)" % sv[1]) if want == "err" else "Partial"))
         n = payload["n"]
@@ -967,6 +1032,43 @@ class SpecMon(Monitor):
 
     def check_partial_fields(self, m, st):
         pass
+
+    def check_headers_field(self, m, st, kind, payload):
+        """C17: what `headers` refers to when the call returns."""
+        pb = m.p.ptr_bytes * 8
+        if self.kind == "headers":
+            if kind == "complete":
+                h = payload["headers"]
+                if h[0] != "fat" or h[1][0] != "D" or h[1][1] != "ARG" or not self.same_value(m, st, h[1][2], mk_int(0, pb)):
+                    m.violate(st, "headers:result-slice", "parse_headers returns a slice that does not start at the caller's array")
+                elif not self.same_value(m, st, h[2], self.nstored):
+                    m.violate(st, "headers:result-len", "parse_headers returns %s header(s), %s were stored" % (m.show_sym(h[2]), m.show_sym(self.nstored)))
+            return
+        if self.kind not in ("request", "response") or "SELF" not in st.heap:
+            return
+        names = st.flags.get("self_fields", ())
+        if "headers" not in names:
+            return
+        h = st.heap["SELF"][1][names.index("headers")]
+        uninit_root = "uninit" in self.root
+        arr = "ARG" if uninit_root else "SELF"
+        if kind == "complete":
+            if h[0] != "fat" or h[1][0] != "D" or h[1][1] != arr or not self.same_value(m, st, h[1][2], mk_int(0, pb)):
+                m.violate(st, "headers:complete-slice", "on Complete `headers` does not refer to the start of the array handed to this call")
+            elif not self.same_value(m, st, h[2], self.nstored):
+                m.violate(st, "headers:complete-len", "on Complete headers.len() is %s but %s header(s) were stored" % (m.show_sym(h[2]), m.show_sym(self.nstored)))
+        else:
+            orig = ("sym", (("CAP:SELF", 1),), 0, pb, False)
+            if h[0] != "fat" or h[1][0] != "D" or h[1][1] != "SELF" or not self.same_value(m, st, h[1][2], mk_int(0, pb)) or not self.same_value(m, st, h[2], orig):
+                what = "the caller's whole array was not put back" if not uninit_root else "`headers` was modified"
+                m.violate(st, "headers:not-restored", "after %s %s (now %s)" % (kind, what, self.show_hdr(m, h)))
+
+    def show_hdr(self, m, h):
+        if h[0] != "fat":
+            return h[0]
+        if h[1][0] == "D":
+            return "%s[%s..][..%s]" % (h[1][1], m.show_sym(h[1][2]), m.show_sym(h[2]))
+        return "slice at %s of length %s" % (h[1][0], m.show_sym(h[2]) if h[2][0] in ("int", "sym") else h[2][0])
 
     def check_headers_result(self, m, st, payload, sim):
         pass
